@@ -331,3 +331,30 @@ Lemma witness_misaligned :
   let f := fold_left apply_msg (full_sync_impl witness_regions) (finit 10000 None) in
   option_map leader (find_id (f_cache f) 101) = Some (Some (Peer 1001 1 false)).
 Proof. vm_compute. reflexivity. Qed.
+
+(* ---------- the broadcast path: RunServer's batches decode to the notified regions ---------- *)
+Lemma run_server_decodes : forall fuel next pending, (length pending <= fuel)%nat ->
+  decode_all (run_server_batches fuel next pending) = map norm pending.
+Proof.
+  induction fuel as [|fuel IH]; intros next pending Hf.
+  - destruct pending; [reflexivity|cbn in Hf; lia].
+  - destruct pending as [|first rest]; [reflexivity|].
+    cbn [run_server_batches].
+    set (k := Z.to_nat (Z.min (Z.of_nat (length rest)) maxSyncRegionBatchSize)).
+    change (Msg next (map meta (first :: firstn k rest)) (map stat (first :: firstn k rest))
+                (map (fun r => match leader r with Some p => p | None => zero_peer end) (first :: firstn k rest)))
+      with (aligned_msg next (first :: firstn k rest)).
+    unfold decode_all in *. cbn [map concat]. rewrite decode_aligned.
+    rewrite IH.
+    + rewrite <- map_app. cbn [app]. rewrite firstn_skipn. reflexivity.
+    + rewrite skipn_length. cbn [length] in Hf. lia.
+Qed.
+
+Theorem broadcast_decodes_pf next pending : leaders_valid pending ->
+  decode_all (run_server_batches (S (length pending)) next pending) = pending.
+Proof. intros Hv. rewrite run_server_decodes by lia. apply map_norm_valid. exact Hv. Qed.
+
+Theorem broadcast_replays_pf next pending f : leaders_valid pending ->
+  f_cache (fold_left apply_msg (run_server_batches (S (length pending)) next pending) f) =
+  fold_left check_and_put pending (f_cache f).
+Proof. intros Hv. rewrite cache_apply_msgs, broadcast_decodes_pf by exact Hv. reflexivity. Qed.
